@@ -6,6 +6,7 @@ import Carquet.Impl.ThriftParquet
 import Carquet.Gen.Constants
 import Carquet.Gen.ThriftSchema
 import Carquet.Proofs.ThriftUnknown
+import Carquet.Proofs.ThriftExtendsDeep
 /-
 C13 — Thrift metadata round-trips and is genuine compact protocol.
 Property statements only; helper lemmas live in Carquet/Proofs/Thrift*.lean.
@@ -245,23 +246,54 @@ theorem C13_spec_decode_encode :
 
 /-! ## Carquet reads other writers' encodings -/
 
-/-- **Any encoding is accepted.**  Let `fs` be the fields of the structure's Thrift value with
-further fields inserted anywhere whose ids carquet does not know, of *every* wire type and nested
-up to 31 (FileMetaData) / 29 (PageHeader) levels, and let `bs` be *any* encoding of that struct
-the compact protocol admits (short or long field headers, short or long list headers, bool
-elements as 1/2/0, at every level).  Then carquet's parser returns OK, the structure, and has
-consumed exactly `bs`. -/
+/-- **Any encoding is accepted, with unknown fields at EVERY nesting level.**
+`ExtD sch v v'` (Proofs.ThriftExtendsDeep, *ExtendsDeep*) is syntactic: `v'` is `v` with further
+fields inserted into any struct the schema reaches — the top-level struct, schema elements and
+their logical types (and the time / decimal / integer members of those), row groups, column
+chunks, column metadata, statistics, key/value and encoding-stats entries; for a page header its
+three member headers and their statistics — each inserted field with an id the parser of *that*
+struct does not know, of *every* wire type, nested up to `R + 4 − (depth of the struct)` levels
+(31 at the top of a FileMetaData, 29 at the top of a PageHeader, 27 in the innermost structs),
+and nothing else changed.  `schFileMeta`, `schPageHeader` are parquet.thrift as carquet parses
+it.  Let `bs` be *any* encoding of such a `v'` the compact protocol admits (short or long field
+headers, short or long list headers, bool elements as 1/2/0, at every level).  Then carquet's
+parser returns OK, the structure, and has consumed exactly `bs`.
+The earlier form (unknown fields at the top level only, `Extends`) is a special case. -/
 theorem C13_accepts_any_encoding :
-    (∀ (m : FileMetaData) (fs : Fields) (bs rest : List UInt8), m.wf = true →
-      Extends fileMetaKnown 31 (fmFields m) fs → Encodes (.struct fs) bs →
+    (∀ (m : FileMetaData) (v' : TVal) (bs rest : List UInt8), m.wf = true →
+      ExtD (schFileMeta 27) (fileMetaDataTV m) v' → Encodes v' bs →
       parseFileMetaDataX Cfg.fixed (bs ++ rest) = ⟨none, m.norm, bs.length, false⟩) ∧
-    (∀ (h : PageHeader) (fs : Fields) (bs rest : List UInt8),
-      Extends pageHeaderKnown 29 (phFields h) fs → Encodes (.struct fs) bs →
+    (∀ (h : PageHeader) (v' : TVal) (bs rest : List UInt8),
+      ExtD (schPageHeader 27) (pageHeaderTV h) v' → Encodes v' bs →
       parsePageHeaderX Cfg.fixed (bs ++ rest) = ⟨none, h.norm, bs.length, false⟩) ∧
+    (∀ (m : FileMetaData) (fs : Fields), Extends fileMetaKnown 31 (fmFields m) fs →
+      ExtD (schFileMeta 27) (fileMetaDataTV m) (.struct fs)) ∧
+    (∀ (h : PageHeader) (fs : Fields), Extends pageHeaderKnown 29 (phFields h) fs →
+      ExtD (schPageHeader 27) (pageHeaderTV h) (.struct fs)) ∧
     (∀ m : FileMetaData, fileMetaDataTV m = .struct (fmFields m)) ∧ (∀ h : PageHeader, pageHeaderTV h = .struct (phFields h)) :=
-  ⟨fun m fs bs rest h hext henc => accepts_filemetadata m h fs hext bs henc rest,
-   fun h fs bs rest hext henc => accepts_pageheader h fs hext bs henc rest,
+  ⟨fun m v' bs rest h hext henc => accepts_filemetadata_deep m h v' hext bs henc rest,
+   fun h v' bs rest hext henc => accepts_pageheader_deep h v' hext bs henc rest,
+   extD_of_extends_filemeta, extD_of_extends_pageheader,
    fileMetaDataTV_eq, pageHeaderTV_eq⟩
+
+/-- a dictionary page header with an unknown list<bool> field at the top and, INSIDE the nested
+DictionaryPageHeader struct, an unknown map field and an unknown struct field -/
+example : ExtD (schPageHeader 27)
+    (pageHeaderTV { type := 2, uncompressedPageSize := 10, compressedPageSize := 10,
+                    dictionaryPageHeader := { numValues := 3, encoding := 0, isSorted := true } })
+    (.struct [(100, .list .bool [.bool true, .bool false]), (1, .i32 2), (2, .i32 10), (3, .i32 10),
+      (7, .struct [(1, .i32 3), (9, .map [(.i8 1, .bool false)]), (2, .i32 0), (3, .bool true), (-5, .struct [(1, .binary [7])])])]) := by
+  rw [schPageHeader, ExtD]
+  refine Or.inr ⟨_, _, rfl, rfl, ?_⟩
+  refine .add (by decide) (by decide) (.keep ?_ (.keep ?_ (.keep ?_ (.keep ?_ .nil))))
+  · exact extD_refl _ _
+  · exact extD_refl _ _
+  · exact extD_refl _ _
+  · show ExtD (schDictPage 27) _ _
+    rw [schDictPage, ExtD]
+    refine Or.inr ⟨_, _, rfl, rfl, ?_⟩
+    exact .keep (extD_refl _ _) (.add (by decide) (by decide) (.keep (extD_refl _ _) (.keep (extD_refl _ _)
+      (.add (by decide) (by decide) .nil))))
 
 /-- the general form (unknown fields at *every* level, members carquet parses but never writes):
 whatever struct value `fs` is encoded, if its fields are acceptable to the parser tables
